@@ -1,6 +1,8 @@
 package c20
 
 import (
+	"os"
+	"strconv"
 	"crypto/sha256"
 	"fmt"
 	"reflect"
@@ -539,7 +541,45 @@ func (w *world) step(op *sop, check bool) (v *sviol, pruned string, opErr error)
 			}
 		}
 	}
+	// 4. a newly constructed message is empty and its unset fields read as defaults, whatever
+	// happened to other messages before (nothing written through one message may reach the
+	// values that unset fields of other messages present)
+	if bad := w.freshIsPristine(); bad != "" {
+		return &sviol{"S:fresh-message-not-pristine", "after " + op.src + ": " + bad}, "", err
+	}
 	return nil, "", err
+}
+
+// freshIsPristine constructs T() and reads its unset composite fields.
+func (w *world) freshIsPristine() string {
+	v, err := starlark.Call(w.th, w.e.T, nil, nil)
+	if err != nil {
+		return ""
+	}
+	m := v.(*starlarkproto.Message)
+	if c := contentOf(m.Message().ProtoReflect()); c != "{}" {
+		return "T() is not empty: " + c
+	}
+	for _, f := range []string{"f_msg", "f_msg2", "r_msg", "mm", "r_int32", "mv_int32"} {
+		x, err := m.Attr(f)
+		if err != nil || x == nil {
+			continue
+		}
+		switch y := x.(type) {
+		case *starlarkproto.Message:
+			if c := contentOf(y.Message().ProtoReflect()); c != "{}" {
+				return fmt.Sprintf("T().%s (an unset field) reads as %s", f, c)
+			}
+		case starlark.Sequence:
+			if y.Len() != 0 {
+				return fmt.Sprintf("T().%s (an unset field) has %d elements", f, y.Len())
+			}
+		}
+	}
+	if c := contentOf(m.Message().ProtoReflect()); c != "{}" {
+		return "reading the unset fields of T() populated it: " + c
+	}
+	return ""
 }
 
 // reaches reports whether the container target is top or lies below it.
@@ -708,7 +748,15 @@ type ssucc struct {
 func searchS(c *fw.Ctx, cfg *sconfig, total *fw.Stats, firstViol map[string]bool) {
 	e := getEnv()
 	ops := cfg.ops()
-	nw := runtime.NumCPU()
+	// One goroutine: the implementation under test may keep process-wide state
+	// behind its API (a cache of default messages, say); with parallel workers
+	// such state makes results depend on scheduling, which no replay can
+	// reproduce. (VERIF_C20_WORKERS overrides, for timing experiments.)
+	nw := 1
+	if v, err := strconv.Atoi(os.Getenv("VERIF_C20_WORKERS")); err == nil && v > 0 {
+		nw = v
+	}
+	_ = runtime.NumCPU
 	seen := map[[16]byte]struct{}{}
 	hashOf := func(k string) (h [16]byte) {
 		s := sha256.Sum256([]byte(k))
